@@ -163,8 +163,8 @@ type LockInv struct {
 }
 
 type ContractSet struct {
-	ChanInvs  map[string]*ChanInv // pkgpath.<elem type text>
-	LockInvs  map[string]*LockInv // pkgpath.Type.mutex
+	ChanInvs  map[string]*ChanInv  // pkgpath.<elem type text>
+	LockInvs  map[string]*LockInv  // pkgpath.Type.mutex
 	Guards    map[string]string    // pkgpath.var -> name of the mutex (package-level variable) that guards it
 	TypeInvs  map[string]*TypeInv  // pkgpath.Type
 	Templates map[string]*Contract // pkg.Recv -> default contract of the methods of Recv
